@@ -77,8 +77,10 @@ def gen_program(rng, role, nobj, nops):
                 ops.append(['r', grp])
             elif r < 0.80:
                 ops.append(['b'])
-            elif r < 0.90:
+            elif r < 0.89:
                 ops.append(['x'])
+            elif r < 0.91:
+                ops.append(['rc'])          # resetCaches(): a reused connection starts a fresh cache
             elif r < 0.95:
                 ops.append(['a'])
             else:
@@ -97,8 +99,10 @@ def gen_program(rng, role, nobj, nops):
                 i += 1
             elif r < 0.88:
                 ops.append(['b'])
-            elif r < 0.94:
+            elif r < 0.92:
                 ops.append(['u', rng.choice([0, 0, 0, 1, 2])])       # undo a recent commit (FileStorage)
+            elif r < 0.955:
+                ops.append(['um', rng.choice([2, 2, 3])])            # undo several recent commits at once
             else:
                 ops.append(['x'])
         i += 1
@@ -115,7 +119,7 @@ def gen_case(rng, thorough, idx):
         role2 = role if role != 'mixed' else rng.choice(['writer', 'reader'])
         progs['t%d' % t] = gen_program(rng, role2, nobj, rng.choice([4, 6, 8, 10]))
     if kind != 'file':
-        progs = {t: [op for op in ops if op[0] != 'u'] for t, ops in progs.items()}
+        progs = {t: [op for op in ops if op[0] not in ('u', 'um')] for t, ops in progs.items()}
     pack = kind == 'file' and rng.random() < (0.25 if thorough else 0.15)
     if pack:
         progs['pk'] = [['pack']] * rng.choice([1, 1, 2])
@@ -214,7 +218,7 @@ def instrumented(run):
     def tpc_finish(self, transaction, func=lambda tid: None):
         t = tname()
         tid = o_fin(self, transaction, func)
-        run.commits.append(dict(tid=u64(tid), thread=t, ret=run.tick()))
+        run.commits.append(dict(tid=u64(tid), thread=t, ret=run.tick(), oids=sorted(run.pending.get(t, {}))))
         return tid
 
     def load(self, oid):
@@ -244,7 +248,8 @@ def instrumented(run):
             func(tid)
         r = o_ufin(self, transaction, f)
         if got:
-            run.commits.append(dict(tid=u64(got[0]), thread=tname(), ret=run.tick(), undo=True))
+            run.commits.append(dict(tid=u64(got[0]), thread=tname(), ret=run.tick(), undo=True,
+                                    oids=sorted(u64(o) for o in self._undone)))
         return r
 
     cls.poll_invalidations, cls.tpc_finish, cls.load = poll_invalidations, tpc_finish, load
@@ -332,25 +337,47 @@ def worker(run, db, name, ops, nobj, explicit, stamps):
         if explicit:
             tm.begin()
 
-    def do_undo(k):
+    def do_undo(k, many=0):
+        """undo the k-th most recent commit — or, with many >= 2, that many recent commits that wrote
+        pairwise different objects (preferring different writers) in ONE transaction"""
         import base64
         from ZODB.POSException import UndoError
         from ZODB.utils import p64
         do_abort(False)
         mine = [c for c in run.commits if c['thread'] != 'setup']
-        if len(mine) <= k:
+        picked = []
+        if many:
+            seen, threads = set(), set()
+            for prefer_other in (True, False):
+                for c in reversed(mine):
+                    if len(picked) >= many or c in picked or not c.get('oids'):
+                        continue
+                    if seen & set(c['oids']) or (prefer_other and c['thread'] in threads):
+                        continue
+                    picked.append(c)
+                    seen |= set(c['oids'])
+                    threads.add(c['thread'])
+            if len(picked) < 2:
+                picked = []
+        elif len(mine) > k:
+            picked = [mine[-1 - k]]
+        if not picked:
             if explicit:
                 tm.begin()
             return
-        tid = mine[-1 - k]['tid']
+        tids = [c['tid'] for c in picked]
         if explicit:
             tm.begin()
         if tr:
-            tr.pre_undo(name, tid)
+            tr.pre_undo(name, tids)
         try:
-            db.undo(base64.encodebytes(p64(tid)).rstrip(), tm.get())
+            ids = [base64.encodebytes(p64(t)).rstrip() for t in tids]
+            if many:
+                db.undoMultiple(ids, tm.get())
+            else:
+                db.undo(ids[0], tm.get())
             tm.commit()
-            run.errors.append((name, 'undo', 'ok'))
+            run.errors.append((name, 'undo%d' % len(tids), 'ok'))
         except (UndoError, ConflictError) as e:
             run.errors.append((name, 'undo-failed', type(e).__name__))
             tm.abort()
@@ -393,6 +420,14 @@ def worker(run, db, name, ops, nobj, explicit, stamps):
                     boundary(do_begin)
                 elif k == 'u':
                     boundary(lambda: do_undo(op[1]))
+                elif k == 'um':
+                    boundary(lambda: do_undo(0, op[1]))
+                elif k == 'rc':
+                    import ZODB.Connection
+                    boundary(lambda: do_abort(False))
+                    ZODB.Connection.resetCaches()
+                    st['conn'].close()
+                    opn()
                 elif k == 'ic':
                     db._mvcc_storage.invalidateCache()   # what a storage does after a reconnect
                 elif k == 'x':
